@@ -38,6 +38,8 @@ type cfgDesc struct {
 	Mode     string   `json:"mode"`
 	Rules    []string `json:"rules"`              // --connect-to entries
 	MITM     bool     `json:"mitm,omitempty"`     // --mitm: CONNECT is terminated by the proxy, inner requests are routed
+	Attempts int      `json:"dial_attempts"`      // --dial-attempts (Dialer retry); <= 0 means 1
+	FailFirst int     `json:"fail_first_dials"`   // scripted environment: that many socket requests fail first, per request
 }
 
 func (p *pacDesc) script() string {
@@ -188,7 +190,8 @@ func newRig(desc cfgDesc, w *world) (*rig, error) {
 	}
 	tcfg := forwarder.DefaultHTTPTransportConfig()
 	tcfg.TLSClientConfig.Insecure = true
-	tcfg.DialConfig.Retry.Attempts = 1
+	tcfg.DialConfig.Retry.Attempts = desc.Attempts
+	tcfg.DialConfig.Retry.Backoff = time.Millisecond
 	if len(r.rules) > 0 { // command/run/run.go: only set when the flag is given
 		tcfg.RedirectFunc = forwarder.DialRedirectFromHostPortPairs(r.rules)
 	}
@@ -247,6 +250,7 @@ type obsJSON struct {
 // inner origin-form GET through the tunnel, 2 = https target in absolute form, 3 = request inside a MITM'd tunnel.
 func (r *rig) request(kind int, scheme, urlhost string) obsJSON {
 	r.w.reset()
+	r.w.failFirst = r.desc.FailFirst
 	if r.pac != nil {
 		r.pac.take()
 	}
